@@ -273,7 +273,12 @@ class Builder(object):
     return r
 
   def uniform(self, origin=None):
+    # draws are shared between traces of the same builder when the producing op has the same name and position
+    if origin is not None and ("uniform", origin) in self.stub_memo:
+      return self.stub_memo[("uniform", origin)]
     r = self.freevar("rnd", nosub=True)
+    if origin is not None:
+      self.stub_memo[("uniform", origin)] = r
     self.stubs.append(dict(kind="uniform", arg=None, res=r, origin=origin))
     self.side.append(L("(and (fp.leq %s {0}) (fp.lt {0} %s) (not (fp.isSubnormal {0})) (fp.isPositive {0}))" % (PZ, fp_lit(1.0)), r))
     return r
